@@ -81,6 +81,11 @@ CHECKS = {
             "(a) all sessions of <=2 messages (quick; thorough: <=3 over a reduced 75-letter alphabet) over 304 letters (9 message codes + unknown codes x empty / wrong RLP kind / truncated / boundary parameters, forged momentums and blocks, oversize messages) before and after the handshake on chains of 600 and 5 momentums, plus scripted downloader/fetcher dialogues, on the real ProtocolManager over p2p.MsgPipe in re-exec'd child processes: no panic (recovered panics are confirmed by a raw child dying), sentinel request answered by the same and a witness peer after every message, replies <=512 hashes / <=128 momentums / <=10 MiB, oversize dropped unread. (b) 3 real rlpx frames: every byte x {^0xFF,+1} (thorough all 255 masks), every truncation, all sequences of <=4 frames, crafted valid-MAC frames: error or exactly the sent message. (c) real discovery udp/Table on an in-memory conn: every single-byte corruption and truncation of 4 packet kinds (raw and re-hashed), expiry/version/oversize variants, bonded-sender flow: rejected, no panic, no datagram to an unverified sender.",
             "Grammar-bounded alphabet, not all byte strings; p2p.Server/rlpx handshake not in the session loop; only the 400 ms / 100 ms timer paths of fetcher/downloader are exercised.",
             "5/C15"),
+    "C17": ("model_checking",
+            "exhaustive enumeration of spork activation orders x acknowledged heights x delivery modes on a producer with three followers, against a by-construction gating oracle; child processes for the halt on an unimplemented spork",
+            "Every single spork, ordered pair and all 6 permutations of the three sporks (quick: spacing 4 + 3 permutations with spacing 1 / reversed creation; thorough: x creation order x spacing 1..5), in live and lag timing (probes acknowledging an older momentum while the frontier is past the last enforcement height). At every acknowledged height from 3 to maxE+1: four real gated calls (htlc.Create, liquidity.SetIsHalted, bridge.WrapToken, accelerator.CreateProject) through the own-block and the foreign-block path on producer and gossip follower, plus a lookup sweep of all 44 gated and 5 ungated methods: accepted <=> acknowledged height >= enforcement height of its OWN spork, accepted calls execute at the confirming momentum, send-time and receive-time verdicts agree, gossip / momentum-only-with-restarts / one-batch followers stay byte-identical. Administration: creation/activation by non-admin keys, unknown ids, repeated activation have no effect; enforcement height == activation momentum + delay. Halt: child processes lacking a spork exit 2 exactly at the momentum of height E on produce / follow-step / follow-batch paths and at Init on databases at and past E, survive E-1.",
+            "SporkMinHeightDelay as shipped (6); spork ids bound per worker as the repository's tests do.",
+            "5/C17"),
     "C18": ("exploration",
             "exhaustive product enumeration of paging arguments for every paged RPC method against ground truth from the stores + JSON round trips of all blocks + grammar-enumerated JSON-RPC requests against an in-process server",
             "29 paged methods (302 method/argument instances) on 4 real chains: full product of 9+ page indices x 7+ page sizes (incl. limit, limit+1, 2^16..2^32-1 and the first indices whose offset needs >32 bits), heights/counts up to 2^64-1; concatenation of all pages of every legal size must list each element exactly once in store order with correct totals, no page above the limit, out-of-range pages empty, no panic. Every block/momentum round-trips through nom and rpc JSON types to identical protobuf bytes and hash (plus 7 synthetic variants each). ~2300 (quick) / ~7000 (thorough) JSON-RPC requests (wrong types at every parameter position, missing/extra/null params, huge numbers, deep nesting, 5 MiB strings, batches, invalid UTF-8, unknown methods, every truncation of valid requests) over ServeHTTP and ServeCodec: always an error response or a correct result, a sentinel call still answered, process (child) survives.",
